@@ -93,23 +93,38 @@ func readComcastEbp(data []byte) (ebp *comcastEbp, err error) {
 		}
 	}
 
+	// the optional fields announced by the flags must be present
+	need := func(n int) bool { return int(index)+n <= len(data) }
+
 	if ebp.ExtensionFlag() {
+		if !need(1) {
+			return nil, gots.ErrInvalidEBPLength
+		}
 		ebp.ExtensionFlags = data[index]
 		index += uint8(1)
 	}
 
 	if ebp.SapFlag() {
+		if !need(1) {
+			return nil, gots.ErrInvalidEBPLength
+		}
 		ebp.SapType = data[index]
 		index += uint8(1)
 	}
 
 	if ebp.GroupingFlag() {
+		if !need(1) {
+			return nil, gots.ErrInvalidEBPLength
+		}
 		group := data[index]
 		ebp.Grouping = append(ebp.Grouping, group)
 		index += uint8(1)
 	}
 
 	if ebp.TimeFlag() {
+		if !need(8) {
+			return nil, gots.ErrInvalidEBPLength
+		}
 		ebp.TimeSeconds = binary.BigEndian.Uint32(data[index : index+4])
 		index += uint8(4)
 
